@@ -123,6 +123,24 @@ def gen_dev2(rng):
             qs.append([base[0] + rng.uniform(-2, 2), base[1] + rng.uniform(-2, 2)])
     qs.append([pts[0][0] - rng.uniform(0.5, 3), pts[0][1] + rng.uniform(-2, 2)])   # beyond the ends
     qs.append([pts[-1][0] + rng.uniform(0.5, 3), pts[-1][1] + rng.uniform(-2, 2)])
+    # just off a vertex with a tangential component (the closest point is the vertex, the offset is not along the station
+    # normal), at distances on both sides of the 1e-6 switch and up to 1e-2
+    def near(v, ux, uy):
+        d = rng.choice([3e-7, 8e-7, 2e-6, 1e-5, 1e-4, 5e-4, 9e-4, 3e-3, 1e-2])
+        m = math.hypot(ux, uy) or 1.0
+        return [v[0] + d * ux / m, v[1] + d * uy / m]
+    qs.append(near(pts[0], -1.0, rng.uniform(-2, 2)))                  # beyond the first end (the curve runs towards +x)
+    qs.append(near(pts[-1], 1.0, rng.uniform(-2, 2)))
+    if len(pts) > 2:
+        i = rng.randrange(1, len(pts) - 1)
+        a = [pts[i][0] - pts[i - 1][0], pts[i][1] - pts[i - 1][1]]
+        b = [pts[i + 1][0] - pts[i][0], pts[i + 1][1] - pts[i][1]]
+        la, lb = math.hypot(*a), math.hypot(*b)
+        turn = a[0] * b[1] - a[1] * b[0]
+        # outward bisector of the corner (away from the side the curve turns to), tilted
+        ox, oy = (a[1] / la + b[1] / lb, -a[0] / la - b[0] / lb) if turn > 0 else (-a[1] / la - b[1] / lb, a[0] / la + b[0] / lb)
+        t = rng.uniform(-0.3, 0.3)
+        qs.append(near(pts[i], ox - t * oy, oy + t * ox))
     return {"k": "c16.dev2", "curve": pts, "tol": 1e-6, "closed": False, "queries": qs}
 
 
